@@ -255,7 +255,13 @@ func (g *G) liftF(t *smt.Term) *lv {
 	case smt.OFAdd:
 		r = g.add(g.liftF(t.Args[0]), g.liftF(t.Args[1]), false)
 	case smt.OFSub:
-		r = g.add(g.liftF(t.Args[0]), g.liftF(t.Args[1]), true)
+		a, b := g.liftF(t.Args[0]), g.liftF(t.Args[1])
+		if t.Args[0] == t.Args[1] && a.kind == kFin && !g.hasSpecial(a) && a.eps == 0 {
+			// x - x = 0 for every finite x
+			r = g.constLV(0)
+			break
+		}
+		r = g.add(a, b, true)
 	case smt.OFMul:
 		r = g.mul(g.liftF(t.Args[0]), g.liftF(t.Args[1]))
 	case smt.OFDiv:
